@@ -219,21 +219,29 @@ func mkIte(c, a, b *Term) *Term {
 
 // lift1 / lift2 distribute an operation over ite-trees of ring / point sorted operands.
 func lift1(t *Term, f func(*Term) *Term) *Term {
-	if t.Op == "ite" && (isRing(t.Sort) || t.Sort == SPt) {
+	if t.Op == "ite" && (isRing(t.Sort) || t.Sort == SPt) && (t.Sort != SInt || countLeaves(t) <= 16) {
 		return mkIte(t.Args[0], lift1(t.Args[1], f), lift1(t.Args[2], f))
 	}
 	return f(t)
 }
 
+func liftBudget(a *Term) int {
+	if a.Sort == SInt {
+		// integer ite terms stay atoms of the polynomial unless the case product is tiny
+		return 4
+	}
+	return maxIteLeaves
+}
+
 func lift2(a, b *Term, f func(a, b *Term) *Term) *Term {
 	if a.Op == "ite" && (isRing(a.Sort) || a.Sort == SPt) {
-		if countLeaves(a)*countLeaves(b) <= maxIteLeaves {
+		if countLeaves(a)*countLeaves(b) <= liftBudget(a) {
 			c := a.Args[0]
 			return mkIte(c, lift2(a.Args[1], restrict(b, c, true), f), lift2(a.Args[2], restrict(b, c, false), f))
 		}
 	}
 	if b.Op == "ite" && (isRing(b.Sort) || b.Sort == SPt) {
-		if countLeaves(a)*countLeaves(b) <= maxIteLeaves {
+		if countLeaves(a)*countLeaves(b) <= liftBudget(b) {
 			c := b.Args[0]
 			return mkIte(c, lift2(restrict(a, c, true), b.Args[1], f), lift2(restrict(a, c, false), b.Args[2], f))
 		}
@@ -666,10 +674,13 @@ func (t *Term) walk(f func(*Term)) {
 
 // substitute replaces atoms (by key) throughout a term, re-normalising.
 func substitute(t *Term, sub map[string]*Term) *Term {
+	return substituteMemo(t, sub, map[*Term]*Term{})
+}
+
+func substituteMemo(t *Term, sub map[string]*Term, memo map[*Term]*Term) *Term {
 	if len(sub) == 0 {
 		return t
 	}
-	memo := map[*Term]*Term{}
 	var rec func(*Term) *Term
 	rec = func(t *Term) *Term {
 		if r, ok := memo[t]; ok {
